@@ -122,9 +122,21 @@ def classify(d):
     MAXS = 0xFFFFFFFF
     ghosts = {(_nm(g[0]), g[1]) for g in d.get("ghosts_before", [])}
     # ghosts made inside this message: a class NONE delete of the only RR of an RRset
+    # (the RRset may itself come from an add earlier in the message; CNAME replaces, the rest accumulates)
+    running = set(zone)
     for u in upd:
-        if u["c"] == "NONE" and {z for z in zone if z[0] == u["_o"] and z[1] == u["t"]} == {(u["_o"], u["t"], u["rd"])}:
-            ghosts.add((u["_o"], u["t"]))
+        me = (u["_o"], u["t"], u["rd"])
+        mine = {z for z in running if z[0] == u["_o"] and z[1] == u["t"]}
+        if u["c"] == "IN" and u["t"] not in ("SOA", "ANY") and u["rd"] != 0:
+            if u["t"] == "CNAME":
+                running -= mine
+            running.add(me)
+        elif u["c"] == "NONE":
+            if mine == {me}:
+                ghosts.add((u["_o"], u["t"]))
+            running.discard(me)
+        elif u["c"] == "ANY":
+            running -= {z for z in running if z[0] == u["_o"] and (u["t"] == "ANY" or z[1] == u["t"])}
     gnames = {o for (o, _t) in ghosts}
     ALL = {"rcode", "contents", "serial", "all-or-nothing", "one-soa", "apex-ns"}
     trig = []  # (class, fields, explains)
